@@ -408,8 +408,48 @@ def prove_offset(src_root, ex: Explorer):
     ex.run(progress, 'progress')
 
 
+RETRY_STATES = ['VIRGIN', 'QUEUED', 'INITIALIZING', 'INCOMPLETE', 'COMPLETE', 'UPLOADING', 'FAILED', 'ABORTED', 'PAUSED']
+
+
+def prove_retry(src_root, ex: Explorer):
+    """Uploader half of the retry path ("once faults stop the pair finishes without user action"): PeerTransferQueue for an upload that is
+    already in the list and still shared.  The downloader re-sends the request after a cut; the upload is then FAILED (a write failed) or
+    COMPLETE (all bytes were written but the tail was lost): in both states it MUST be queued again; ABORTED is answered with a refusal;
+    in every other state (queued or being processed) nothing may happen to it.  Exhaustive over the states."""
+    def path(ctx: Ctx):
+        from contracts import C08
+        it = mk(src_root, ctx)
+        sname = RETRY_STATES[ctx.choose(len(RETRY_STATES), 'upload-state')]
+        shared = ctx.choose(2, 'still-shared') == 1
+        w = C08.mk_transfer_manager(it, ctx, blocked=False)
+        calls = []
+        st = Stub('state', VALUE=enum(it, 'transfer.state', 'TransferState.State', sname),
+                  queue=Recorder('queue', fn=lambda it2, a, k: calls.append('queue'), is_async=True),
+                  fail=Recorder('fail', fn=lambda it2, a, k: calls.append(('fail', a, k)), is_async=True))
+        t = Stub('upload', state=st)
+        it.hooks[f'{MGR}:TransferManager.find_transfer'] = lambda it2, f, a, k: t
+        it.hooks[f'{MGR}:TransferManager._add_upload'] = lambda it2, f, a, k: (_ for _ in ()).throw(Unsupported('_add_upload for an existing upload'))
+        w['shares'].attrs['find_shared_item'] = Recorder('find_shared_item', ret=Stub('item') if shared else None, is_async=True)
+        fn = Sym(ctx.fresh_str('filename'), 'str')
+        run(it, it.getattr(w['mgr'], '_on_peer_transfer_queue'), Stub('PeerTransferQueue', filename=fn), w['conn'])
+        refusals = [m.attrs.get('reason') for m in w['queued']]
+        if not shared:
+            ctx.prove(f'C04.retry.uploader[{sname},unshared]', 'queue' not in calls and refusals == ['File not shared.'],
+                      'a request for a file that is no longer shared must be refused and not queued')
+        elif sname in ('FAILED', 'COMPLETE'):
+            ctx.prove(f'C04.retry.uploader[{sname}]', calls == ['queue'] and not refusals,
+                      'the downloader asks again after a cut: an upload that FAILED or is COMPLETE on this side must be queued again, '
+                      'otherwise the download waits forever')
+        elif sname == 'ABORTED':
+            ctx.prove('C04.retry.uploader[ABORTED]', not calls and refusals == ['Cancelled'])
+        else:
+            ctx.prove(f'C04.retry.uploader[{sname}]', not calls and not refusals,
+                      'an upload that is queued or being processed must not be disturbed by a repeated request')
+    ex.run(path, 'retry-uploader')
+
+
 def items(src_root, tier):
-    return [('receive_file', None), ('send_file', None), ('download_file', None), ('upload_file', None), ('offset', None)]
+    return [('receive_file', None), ('send_file', None), ('download_file', None), ('upload_file', None), ('offset', None), ('retry', None)]
 
 
 def run_item(src_root, item, tier):
@@ -418,11 +458,11 @@ def run_item(src_root, item, tier):
     kind, arg = item
     try:
         {'receive_file': prove_receive_file, 'send_file': prove_send_file, 'download_file': prove_download_file,
-         'upload_file': prove_upload_file, 'offset': prove_offset}[kind](src_root, ex)
+         'upload_file': prove_upload_file, 'offset': prove_offset, 'retry': prove_retry}[kind](src_root, ex)
     except Unsupported as e:
         res.errors.append(f'{kind}: unsupported: {e}')
     collect(res, ex)
-    res.functions.update([f'{CONN}:PeerConnection.receive_file', f'{CONN}:PeerConnection.send_file', f'{MGR}:TransferManager._download_file',
+    res.functions.update([f'{MGR}:TransferManager._on_peer_transfer_queue', f'{CONN}:PeerConnection.receive_file', f'{CONN}:PeerConnection.send_file', f'{MGR}:TransferManager._download_file',
                           f'{MGR}:TransferManager._upload_file', f'{MGR}:TransferManager._calculate_offset',
                           f'{MGR}:TransferManager._initialize_download', f'{MODEL}:Transfer._transfer_progress_callback',
                           f'{MODEL}:Transfer.is_transfered'])
